@@ -1,33 +1,544 @@
+// c31: hint strings are an unambiguous encoding; CompatibleSet lookup finds the highest registered version.
+//
+// Real code exercised: hint.Type.IsValid, hint.NewHint, Hint.String/IsValid, hint.ParseHint,
+// hint.EnsureParseHint, util.EnsureParseVersion, util.Version.Compare, hint.CompatibleSet
+// (Add, Find, FindByString, FindBytType, FindBytTypeString).
+//   - property oracle (independent of the Coq model): print-then-parse returns the same valid hint for
+//     every valid (type, version); Version.Compare is semver precedence (reference: golang.org/x/mod/semver);
+//     every Find/FindByString of every random history returns the registered entry with the same type
+//     and major and the highest registered version (cache-free reference in Go);
+//   - correspondence: the same inputs/histories with the observed outputs are written as cases for the
+//     Gallina model (coq/C31/Model.v: check).
 package main
 
 import (
+	"encoding/hex"
 	"fmt"
+	"strings"
 
 	"github.com/spikeekips/mitum/util"
 	"github.com/spikeekips/mitum/util/hint"
+	stdsemver "golang.org/x/mod/semver"
+	"verifharness/vh"
 )
 
+type replay struct {
+	Kind    string   `json:"kind"` // roundtrip | compare | set
+	Type    string   `json:"type,omitempty"`
+	Version string   `json:"version,omitempty"`
+	A       string   `json:"a,omitempty"`
+	B       string   `json:"b,omitempty"`
+	Size    int      `json:"size,omitempty"`
+	Ops     []setOp  `json:"ops,omitempty"`
+	At      int      `json:"at,omitempty"`
+	Note    string   `json:"note,omitempty"`
+	Strings []string `json:"strings,omitempty"`
+}
+
+type setOp struct {
+	Op    string `json:"op"`              // add | find | findstr | findtype | findtypestr
+	Type  string `json:"type,omitempty"`  // add/find: the hint is NewHint(Type, EnsureParseVersion(Ver))
+	Ver   string `json:"ver,omitempty"`   //
+	Value uint64 `json:"value,omitempty"` // add
+	S     string `json:"s,omitempty"`     // findstr / findtype / findtypestr
+}
+
+// ---------------------------------------------------------------- Coq rendering
+
+func hx(s string) string { return "(hx \"" + hex.EncodeToString([]byte(s)) + "\")" }
+
+func printable(s string) bool {
+	for _, c := range []byte(s) {
+		if c < 32 || c > 126 || c == '"' {
+			return false
+		}
+	}
+	return true
+}
+
+// qs renders a string as a Coq term: literal when printable, hex otherwise.
+func qs(s string) string {
+	if printable(s) {
+		return "\"" + s + "\""
+	}
+	return hx(s)
+}
+
+func coqBool(b bool) string {
+	if b {
+		return "true"
+	}
+	return "false"
+}
+
+func coqVer(v util.Version) string {
+	return fmt.Sprintf("(mkVer %d %d %d %s)", v.Major(), v.Minor(), v.Patch(), qs(v.Prerelease()))
+}
+
+func coqSHint(h hint.Hint) string {
+	return fmt.Sprintf("(mkSHint %s %s %s %s)", qs(h.Type().String()), coqVer(h.Version()), qs(h.String()), coqBool(h.IsValid(nil) == nil))
+}
+
+// vtable: text -> String() of EnsureParseVersion(text), for every suffix after a '-' of the candidates
+func vtable(cands ...string) string {
+	seen := map[string]bool{}
+	var items []string
+	for _, s := range cands {
+		for i := 0; i < len(s); i++ {
+			if s[i] != '-' {
+				continue
+			}
+			t := s[i+1:]
+			if seen[t] {
+				continue
+			}
+			seen[t] = true
+			items = append(items, fmt.Sprintf("(%s,%s)", qs(t), qs(util.EnsureParseVersion(t).String())))
+		}
+	}
+	return "[" + strings.Join(items, ";") + "]"
+}
+
+func goTrim(s string) string { // what parseHint does before splitting (for the vtable only)
+	return strings.TrimSpace(strings.TrimRight(s, "\x00"))
+}
+
+func obsHint(h hint.Hint) string {
+	return fmt.Sprintf("(Some (%s,%s))", qs(h.Type().String()), qs(h.Version().String()))
+}
+
+// ---------------------------------------------------------------- reference semver precedence
+
+func refCompare(a, b util.Version) int { return stdsemver.Compare(a.String(), b.String()) }
+
+// ---------------------------------------------------------------- main
+
+var versionTexts = []string{
+	"v0.0.1", "v1.0.0", "v1.2.3", "v2.0.0-v1.0.0", "v1.0.0-v1", "v1.0.0-alpha.1", "v1.0.0-rc.1-v3",
+	"v1.0.0+meta", "v1.0.0-v1+b-v2", "v10.20.30", "v1.0.0-0", "v1.0.0-a-v2b", "v0.0.0", "v3", "v1.2",
+	"v1.0.0-x-v1.y-v2", "v1.2.3+build.20250101-v9", // the last one is longer than MaxVersionLength: invalid hint
+}
+
 func main() {
-	for _, p := range [][2]string{{"v1.0.0-a", "v1.0.0-b"}, {"v1.0.0-b", "v1.0.0-a"}, {"v1.0.0-1.12", "v1.0.0-1.13"}, {"v1.0.0-1.13", "v1.0.0-1.12"}, {"v1.0.0-alpha", "v1.0.0-beta"}, {"v1.0.0-beta", "v1.0.0-alpha"}, {"v1.0.0-alpha.1", "v1.0.0-alpha.2"}, {"v1.0.0-alpha.2", "v1.0.0-alpha.1"}, {"v1.0.0-12", "v1.0.0-13"}, {"v1.0.0-13", "v1.0.0-12"}, {"v1.0.0-2", "v1.0.0-13"},{"v1.0.0-x.2", "v1.0.0-x.13"}, {"v1.0.0-x.13", "v1.0.0-x.2"}} {
-		a, b := util.EnsureParseVersion(p[0]), util.EnsureParseVersion(p[1])
-		fmt.Println(p[0], p[1], a.Compare(b), a.IsValid(nil), b.IsValid(nil))
+	o := vh.ParseFlags()
+	res := vh.NewResult("types: exhaustive over the alphabet {a,0,-,_,+,v} up to length 6 (7 in thorough) plus random longer ones, each valid type printed with every version of a pool (incl. prereleases/metadata containing -v<digit>) and parsed back through hint.NewHint/String/ParseHint/IsValid; Version.Compare on all pairs of a pool of tricky versions against x/mod semver precedence; random Add/Find/FindByString/FindBytType/FindBytTypeString histories on the real CompatibleSet against a cache-free reference; non-trivial = valid type (round trip), differing versions (compare), a lookup whose type and major are registered (set)")
+	r := vh.NewRand(o.Seed)
+	cases := &vh.Cases{Import: "From MV Require Import C31.Model.", Type: "case", CheckFn: "check", Shard: 400}
+
+	if o.Replay != "" {
+		var rp replay
+		if err := vh.ReadReplay(o.Replay, &rp); err == nil && rp.Kind != "" {
+			replayOne(rp)
+		}
 	}
-	for _, s := range []string{"abc-v2-v1.0.0", "abc-v1.0.0-v2", "abc-v1", "abc-v1.2", "abc-v1.0.0+meta", "abc-v1.0.0-v1+b-v2", "abc-v01.0.0", "abc-v1.0.0-01", "a-v1.2.3\x00\x00", " abc-v1.2.3 ", "abc-v1.0.0-", "ab-v18446744073709551616.0.0", "ab-v1.0.0-rc.1-v3"} {
-		h, err := hint.ParseHint(s)
-		fmt.Printf("%q -> type=%q ver=%q str=%q err=%v valid=%v\n", s, h.Type(), h.Version().String(), h.String(), err, h.IsValid(nil))
+
+	var versions []util.Version
+	for _, t := range versionTexts {
+		v := util.EnsureParseVersion(t)
+		if v.IsValid(nil) != nil {
+			panic("pool version invalid: " + t)
+		}
+		versions = append(versions, v)
 	}
-	for _, t := range []string{"abc-v2", "a-v", "ab-v0x", "abc-v1.0.0"} {
-		fmt.Println(t, hint.Type(t).IsValid(nil))
+
+	// ------------------------------------------------------------ 1. types, round trip
+	roundtrip := func(t string, model bool) {
+		ty := hint.Type(t)
+		tvalid := ty.IsValid(nil) == nil
+		if model {
+			cases.Add(fmt.Sprintf("CType %s %s", qs(t), coqBool(tvalid)), map[string]any{"kind": "type", "type": t, "valid": tvalid})
+		}
+		res.Count("type:"+t, tvalid)
+		if !tvalid {
+			return
+		}
+		for vi, v := range versions {
+			h := hint.NewHint(ty, v)
+			hvalid := h.IsValid(nil) == nil
+			s := h.String()
+			res.Evaluations++
+			rp := replay{Kind: "roundtrip", Type: t, Version: v.String()}
+			if s != t+"-"+v.String() {
+				res.Fail("hint-string", fmt.Sprintf("NewHint(%q,%s).String() = %q", t, v, s), rp)
+			}
+			p, err := hint.ParseHint(s)
+			if hvalid {
+				switch {
+				case err != nil:
+					res.Fail("roundtrip-error", fmt.Sprintf("valid hint %q does not parse: %v", s, err), rp)
+				case p.Type() != ty || p.Version().String() != v.String() || p.Version().Compare(v) != 0 || !p.Equal(h) || p.String() != s:
+					cl := "roundtrip-differs"
+					if p.IsValid(nil) == nil {
+						cl = "parse-returns-other-valid-hint"
+					}
+					res.Fail(cl, fmt.Sprintf("hint (%q, %s) prints %q which parses to (%q, %s)", t, v, s, p.Type(), p.Version()), rp)
+				case p.IsValid(nil) != nil:
+					res.Fail("roundtrip-differs", fmt.Sprintf("valid hint %q parses to an invalid hint", s), rp)
+				}
+				// EnsureParseHint / UnmarshalText path
+				if e := hint.EnsureParseHint(s); !e.Equal(h) || e.String() != s {
+					res.Fail("roundtrip-differs", fmt.Sprintf("EnsureParseHint(%q) = (%q,%s)", s, e.Type(), e.Version()), rp)
+				}
+			}
+			if model && (vi < 3 || (len(t) <= 3 && vi < 8)) {
+				obs := "None"
+				if err == nil {
+					obs = obsHint(p)
+				}
+				cases.Add(fmt.Sprintf("CParse %s %s %s", qs(s), vtable(s), obs), map[string]any{"kind": "parse", "s": s})
+				cases.Add(fmt.Sprintf("CValid %s %s %s %s", qs(t), qs(v.String()), coqBool(v.IsValid(nil) == nil), coqBool(hvalid)), map[string]any{"kind": "valid", "type": t, "version": v.String()})
+			}
+		}
 	}
-	// cache poison
-	st := hint.NewCompatibleSet[string](10)
-	hi := hint.MustNewHint("abc-v1.5.0")
-	lo := hint.MustNewHint("abc-v1.2.0")
-	fmt.Println(st.Add(hi, "hi"), st.Add(lo, "lo"))
-	v, found := st.Find(lo)
-	fmt.Println("find lo:", v, found)
-	v, found = st.Find(hi)
-	fmt.Println("find hi:", v, found)
-	v, found = st.Find(lo)
-	fmt.Println("find lo:", v, found)
+	alpha := "a0-_+v"
+	maxLen := o.Pick(6, 7)
+	ntypes := 0
+	var gen func(prefix string)
+	gen = func(prefix string) {
+		if len(prefix) > 0 {
+			ntypes++
+			// every type up to length 3 goes to the model; longer ones sampled (those around a separator always)
+			model := len(prefix) <= 3 || strings.Contains(prefix, "-v0") && ntypes%7 == 0 || ntypes%o.Pick(97, 23) == 0
+			roundtrip(prefix, model)
+		}
+		if len(prefix) == maxLen {
+			return
+		}
+		for i := 0; i < len(alpha); i++ {
+			gen(prefix + string(alpha[i]))
+		}
+	}
+	gen("")
+	res.Distribution["exhaustive_types"] = ntypes
+	res.Exhaustive = true
+
+	// corpus: the formerly ambiguous types and boundary lengths
+	for _, t := range []string{"abc-v2", "abc-v2-v1", "ab-v0x", "a-v", "showme-ver", "sho-vwme", "sh-w_m+e", "showme-v0.1", " showme", "shOwme", "sa", "a",
+		strings.Repeat("a", 100), strings.Repeat("a", 101), strings.Repeat("a", 97) + "-v1", strings.Repeat("a", 99) + "-", "a--v1-b", "0-v9", "v-v", "-v1", "a-v1", "ab-V1", "ab-v"} {
+		roundtrip(t, true)
+		res.Dist("corpus_types")
+	}
+	// random longer types
+	chars := "abcdefghijklmnopqrstuvwxyz0123456789-_+"
+	for i := 0; i < o.Pick(300, 5000); i++ {
+		n := r.Range(7, 40)
+		if r.Chance(1, 10) {
+			n = r.Range(95, 102)
+		}
+		b := make([]byte, n)
+		for j := range b {
+			switch {
+			case r.Chance(1, 50):
+				b[j] = "A .v/"[r.Intn(5)]
+			default:
+				b[j] = chars[r.Intn(len(chars))]
+			}
+		}
+		if r.Chance(1, 3) && n > 6 {
+			copy(b[r.Intn(n-3):], "-v"+string(rune('0'+r.Intn(10))))
+		}
+		if r.Chance(1, 3) && n > 6 {
+			copy(b[r.Intn(n-3):], "-v")
+		}
+		roundtrip(string(b), true)
+		res.Dist("random_long_types")
+	}
+
+	// ------------------------------------------------------------ 2. arbitrary texts through ParseHint / EnsureParseHint
+	texts := []string{"", "a", "abc", "abc-", "abc-v", "abc-v1", "abc-v1.2", " abc-v1.2.3 ", "abc-v1.2.3\x00\x00", "abc-v1.2.3 \x00", "abc-v1.2.3\x00 ", "\tabc-v1.2.3\n",
+		"abc-v2-v1.0.0", "abc-v1.0.0-v2", "sho-v1.2.3wme-v1.2.3+incompatible", "sho-vwme-v1.2.3+incompatible", "abc-v01.0.0", "abc-v1.0.0-01", "-v1.0.0", "a-v1.0.0", "ab-v1", "ab-v",
+		"abc-v1.0.0-", "ab-v18446744073709551616.0.0", "ab--v1.0.0", "ab-v1.0.0 x", "a b-v1.0.0", "AB-v1.0.0", "ab-V1.0.0", "ab-v1.0.0+", "ab-v1.0.0+a+b", "    ", "\x00\x00\x00\x00\x00\x00"}
+	talpha := "ab-v01.+ \x00_"
+	for i := 0; i < o.Pick(400, 8000); i++ {
+		n := r.Range(0, 14)
+		b := make([]byte, n)
+		for j := range b {
+			b[j] = talpha[r.Intn(len(talpha))]
+		}
+		if r.Chance(1, 2) {
+			b = append(b, []byte("-v"+versionTexts[r.Intn(len(versionTexts))][1:])...)
+		}
+		if r.Chance(1, 5) {
+			b = append(b, " \x00\n"[r.Intn(3)])
+		}
+		texts = append(texts, string(b))
+	}
+	seen := map[string]bool{}
+	for _, s := range texts {
+		if seen[s] {
+			continue
+		}
+		seen[s] = true
+		p, err := hint.ParseHint(s)
+		obs := "None"
+		if err == nil {
+			obs = obsHint(p)
+		}
+		res.Count("text:"+s, err == nil)
+		res.Dist("texts_parsed")
+		cases.Add(fmt.Sprintf("CParse %s %s %s", qs(s), vtable(s, goTrim(s)), obs), map[string]any{"kind": "parse", "s": s})
+		e := hint.EnsureParseHint(s)
+		eobs := "None"
+		if e.String() != "" || e.Type() != "" {
+			eobs = obsHint(e)
+		}
+		cases.Add(fmt.Sprintf("CEnsure %s %s %s", qs(s), vtable(s), eobs), map[string]any{"kind": "ensure", "s": s})
+		// oracle: a text that parses to a valid hint which prints back to a text that parses again must give the same hint (idempotence)
+		if err == nil && p.IsValid(nil) == nil {
+			q, err2 := hint.ParseHint(p.String())
+			if err2 != nil || !q.Equal(p) || q.String() != p.String() {
+				res.Fail("parse-returns-other-valid-hint", fmt.Sprintf("%q parses to valid hint %q, which parses to %q (err=%v)", s, p, q, err2), replay{Kind: "roundtrip", Type: p.Type().String(), Version: p.Version().String()})
+			}
+		}
+	}
+
+	// ------------------------------------------------------------ 3. Version.Compare
+	cmpTexts := []string{"v1.0.0", "v1.0.0-a", "v1.0.0-b", "v1.0.0-alpha", "v1.0.0-beta", "v1.0.0-alpha.1", "v1.0.0-alpha.2", "v1.0.0-alpha.10", "v1.0.0-alpha.beta",
+		"v1.0.0-1", "v1.0.0-2", "v1.0.0-10", "v1.0.0-12", "v1.0.0-13", "v1.0.0-1.12", "v1.0.0-1.13", "v1.0.0-x.2", "v1.0.0-x.13", "v1.0.0-rc.1", "v1.0.0-rc.1.1", "v1.0.0-beta.11", "v1.0.0-beta.2",
+		"v1.0.0-v1", "v1.0.0-v2", "v1.0.0-0", "v1.0.0-a-b", "v1.0.0-a-c", "v1.0.0+m", "v1.0.0-a+m", "v1.0.1", "v1.1.0", "v2.0.0", "v0.9.9", "v1.0.1-a", "v1.2.3-beta0", "v1.2.3-beta.0", "v1.0.0-a.b.c", "v1.0.0-a.b", "v1.0.0-a1", "v1.0.0-1a"}
+	idents := []string{"a", "b", "alpha", "beta", "rc", "0", "1", "2", "9", "10", "11", "100", "x-y", "v1", "a1", "1a", "-", "z"}
+	for i := 0; i < o.Pick(60, 600); i++ {
+		s := fmt.Sprintf("v%d.%d.%d", r.Intn(3), r.Intn(3), r.Intn(3))
+		if k := r.Intn(4); k > 0 {
+			var ids []string
+			for j := 0; j < k; j++ {
+				ids = append(ids, idents[r.Intn(len(idents))])
+			}
+			s += "-" + strings.Join(ids, ".")
+		}
+		if r.Chance(1, 5) {
+			s += "+m" + fmt.Sprint(r.Intn(3))
+		}
+		cmpTexts = append(cmpTexts, s)
+	}
+	var cvs []util.Version
+	cseen := map[string]bool{}
+	for _, t := range cmpTexts {
+		v := util.EnsureParseVersion(t)
+		if v.IsValid(nil) != nil || cseen[v.String()] {
+			continue
+		}
+		cseen[v.String()] = true
+		cvs = append(cvs, v)
+	}
+	for i, a := range cvs {
+		for j, b := range cvs {
+			got, want := a.Compare(b), refCompare(a, b)
+			res.Count("cmp:"+a.String()+"|"+b.String(), want != 0)
+			if got != want {
+				res.Fail("compare-not-semver-precedence", fmt.Sprintf("Compare(%s,%s) = %d, semver precedence %d", a, b, got, want), replay{Kind: "compare", A: a.String(), B: b.String()})
+			}
+			if got != -b.Compare(a) {
+				res.Fail("compare-not-antisymmetric", fmt.Sprintf("Compare(%s,%s) = %d but Compare(%s,%s) = %d", a, b, got, b, a, b.Compare(a)), replay{Kind: "compare", A: a.String(), B: b.String()})
+			}
+			if (i < 40 && j < 40) || (i+j)%o.Pick(7, 2) == 0 {
+				cases.Add(fmt.Sprintf("CCompare %s %s (%d)%%Z", coqVer(a), coqVer(b), got), map[string]any{"kind": "compare", "a": a.String(), "b": b.String(), "impl": got})
+			}
+		}
+	}
+	res.Distribution["compare_versions"] = len(cvs)
+
+	// ------------------------------------------------------------ 4. CompatibleSet histories
+	corpus := [][]setOp{
+		{{Op: "add", Type: "abc", Ver: "v1.5.0", Value: 1}, {Op: "add", Type: "abc", Ver: "v1.2.0", Value: 2}, {Op: "find", Type: "abc", Ver: "v1.2.0"}, {Op: "find", Type: "abc", Ver: "v1.5.0"}, {Op: "find", Type: "abc", Ver: "v1.2.0"}},
+		{{Op: "add", Type: "abc", Ver: "v1.0.0-a", Value: 1}, {Op: "add", Type: "abc", Ver: "v1.0.0-b", Value: 2}, {Op: "find", Type: "abc", Ver: "v1.0.0"}, {Op: "findtype", S: "abc"}},
+		{{Op: "add", Type: "abc", Ver: "v1.0.0", Value: 1}, {Op: "add", Type: "xyz", Ver: "v1.0.0", Value: 2}, {Op: "findtypestr", S: "abc-v1.0.0"}, {Op: "find", Type: "abc", Ver: "v1.0.0"}, {Op: "findstr", S: "abc"}, {Op: "findtype", S: "abc"}},
+		{{Op: "find", Type: "abc", Ver: "v1.2.0"}, {Op: "add", Type: "abc", Ver: "v1.5.0", Value: 1}, {Op: "find", Type: "abc", Ver: "v1.2.0"}, {Op: "findstr", S: " abc-v1 "}, {Op: "findstr", S: "abc-v1"}, {Op: "add", Type: "abc", Ver: "v1.5.0", Value: 9}, {Op: "add", Type: "abc", Ver: "v1.5.0+m", Value: 9}, {Op: "find", Type: "abc", Ver: "v1.9.9"}},
+		{{Op: "add", Type: "abc", Ver: "v1.0.0-1.12", Value: 1}, {Op: "add", Type: "abc", Ver: "v1.0.0-1.13", Value: 2}, {Op: "find", Type: "abc", Ver: "v1.0.0"}, {Op: "add", Type: "abc", Ver: "v2.0.0", Value: 3}, {Op: "findtype", S: "abc"}, {Op: "findtypestr", S: "abc"}, {Op: "findtypestr", S: "ABC"}, {Op: "findtypestr", S: "ABC"}},
+	}
+	for _, ops := range corpus {
+		for _, size := range []int{10, 0} {
+			runSet(res, cases, size, ops, true)
+		}
+		res.Dist("corpus_histories")
+	}
+	stypes := []string{"abc", "ab-c", "x_y", "abc-v"}
+	sversions := []string{"v0.1.0", "v1.0.0", "v1.2.0", "v1.5.0", "v1.5.0+m", "v1.0.0-a", "v1.0.0-b", "v1.0.0-alpha.1", "v1.0.0-alpha.2", "v1.0.0-alpha.10", "v1.0.0-1.12", "v1.0.0-1.13", "v1.0.0-v1", "v2.0.0", "v2.0.0-rc.1", "v2.1.0", "v1.0.0-x.2", "v1.0.0-x.13"}
+	nh := o.Pick(250, 5000)
+	for i := 0; i < nh; i++ {
+		n := r.Range(3, 24)
+		nt := r.Range(1, 3) // fewer types => more collisions on (type, major)
+		var ops []setOp
+		val := uint64(0)
+		pick := func() (string, string) {
+			t := stypes[r.Intn(nt)]
+			v := sversions[r.Intn(len(sversions))]
+			if r.Chance(1, 25) {
+				t = []string{"abc-v2", "A", "a"}[r.Intn(3)] // invalid types
+			}
+			if r.Chance(1, 25) {
+				v = []string{"", "1.0.0", "v1.2.3+build.20250101-v9"}[r.Intn(3)] // invalid / too long versions
+			}
+			return t, v
+		}
+		for j := 0; j < n; j++ {
+			t, v := pick()
+			switch k := r.Intn(20); {
+			case k < 8:
+				val++
+				ops = append(ops, setOp{Op: "add", Type: t, Ver: v, Value: val})
+			case k < 14:
+				ops = append(ops, setOp{Op: "find", Type: t, Ver: v})
+			case k < 17:
+				s := t + "-" + v
+				switch r.Intn(6) {
+				case 0:
+					s = " " + s + " "
+				case 1:
+					s = t + "-v" + fmt.Sprint(r.Intn(3)) // short version text
+				case 2:
+					s = t // a bare type
+				}
+				ops = append(ops, setOp{Op: "findstr", S: s})
+			case k < 19:
+				ops = append(ops, setOp{Op: "findtype", S: t})
+			default:
+				s := t
+				if r.Chance(1, 3) {
+					s = t + "-" + v
+				}
+				ops = append(ops, setOp{Op: "findtypestr", S: s})
+			}
+		}
+		size := 10
+		if r.Chance(1, 5) {
+			size = 0
+		}
+		runSet(res, cases, size, ops, true)
+		if size == 0 {
+			res.Dist("histories_cache_off")
+		} else {
+			res.Dist("histories_cache_on")
+		}
+	}
+
+	res.ModelCases = cases.Len()
+	if err := cases.Write(o.Out); err != nil {
+		panic(err)
+	}
+	res.Write(o.Out)
+}
+
+type regEntry struct {
+	h hint.Hint
+	v uint64
+}
+
+// runSet runs one history on the real CompatibleSet, checks every lookup by hint against the
+// cache-free reference, and adds the history as a model case.
+func runSet(res *vh.Result, cases *vh.Cases, size int, ops []setOp, model bool) {
+	st := hint.NewCompatibleSet[uint64](size)
+	var reg []regEntry
+	var coqOps, coqOuts, ptab []string
+	pseen := map[string]bool{}
+	expect := func(h hint.Hint) (uint64, bool) {
+		var best *regEntry
+		for i := range reg {
+			e := &reg[i]
+			if e.h.Type() != h.Type() || e.h.Version().Major() != h.Version().Major() {
+				continue
+			}
+			if best == nil || refCompare(e.h.Version(), best.h.Version()) > 0 {
+				best = e
+			}
+		}
+		if best == nil {
+			return 0, false
+		}
+		return best.v, true
+	}
+	for i, op := range ops {
+		rp := replay{Kind: "set", Size: size, Ops: ops[:i+1], At: i}
+		switch op.Op {
+		case "add":
+			h := hint.NewHint(hint.Type(op.Type), util.EnsureParseVersion(op.Ver))
+			err := st.Add(h, op.Value)
+			if err == nil {
+				reg = append(reg, regEntry{h, op.Value})
+				if h.IsValid(nil) != nil {
+					res.Fail("invalid-hint-registered", fmt.Sprintf("Add(%q) accepted an invalid hint", h), rp)
+				}
+			}
+			coqOps = append(coqOps, fmt.Sprintf("OAdd %s %d", coqSHint(h), op.Value))
+			coqOuts = append(coqOuts, "RAdd "+coqBool(err == nil))
+		case "find":
+			h := hint.NewHint(hint.Type(op.Type), util.EnsureParseVersion(op.Ver))
+			v, found := st.Find(h)
+			wv, wfound := expect(h)
+			res.Count(fmt.Sprintf("%v@%d", ops, i), wfound)
+			if found != wfound || (found && v != wv) {
+				res.Fail("find-not-highest", fmt.Sprintf("Find(%q) = (%d,%v), highest registered entry with the same type and major is (%d,%v)", h, v, found, wv, wfound), rp)
+			}
+			coqOps = append(coqOps, "OFind "+coqSHint(h))
+			coqOuts = append(coqOuts, fmt.Sprintf("RFind %s %d", coqBool(found), v))
+		case "findstr":
+			p, perr := hint.ParseHint(op.S)
+			if !pseen[op.S] {
+				pseen[op.S] = true
+				if perr != nil {
+					ptab = append(ptab, fmt.Sprintf("(%s,None)", qs(op.S)))
+				} else {
+					ptab = append(ptab, fmt.Sprintf("(%s,Some %s)", qs(op.S), coqSHint(p)))
+				}
+			}
+			ht, v, found, err := st.FindByString(op.S)
+			if (err != nil) != (perr != nil) {
+				res.Fail("findbystring-error", fmt.Sprintf("FindByString(%q) err=%v but ParseHint err=%v", op.S, err, perr), rp)
+			} else if err == nil {
+				wv, wfound := expect(p)
+				res.Count(fmt.Sprintf("%v@%d", ops, i), wfound)
+				if found != wfound || (found && v != wv) {
+					res.Fail("find-not-highest", fmt.Sprintf("FindByString(%q) = (%d,%v), highest registered entry with the same type and major is (%d,%v)", op.S, v, found, wv, wfound), rp)
+				}
+			}
+			hs := ""
+			if err == nil {
+				hs = ht.String()
+			}
+			if err != nil || !found {
+				v = 0
+			}
+			coqOps = append(coqOps, "OFindStr "+qs(op.S))
+			coqOuts = append(coqOuts, fmt.Sprintf("RRes (%s,%s,%s,%d)", coqBool(err != nil), qs(hs), coqBool(found), v))
+		case "findtype":
+			ht, v, found := st.FindBytType(hint.Type(op.S))
+			res.Evaluations++
+			coqOps = append(coqOps, "OFindType "+qs(op.S))
+			coqOuts = append(coqOuts, fmt.Sprintf("RRes (false,%s,%s,%d)", qs(ht.String()), coqBool(found), v))
+		case "findtypestr":
+			ht, v, found, err := st.FindBytTypeString(op.S)
+			res.Evaluations++
+			hs := ""
+			if err == nil {
+				hs = ht.String()
+			}
+			coqOps = append(coqOps, "OFindTypeStr "+qs(op.S))
+			coqOuts = append(coqOuts, fmt.Sprintf("RRes (%s,%s,%s,%d)", coqBool(err != nil), qs(hs), coqBool(found), v))
+		}
+	}
+	if model {
+		term := fmt.Sprintf("(CSet (%d)%%Z [%s] [%s] [%s])%%N", size, strings.Join(ptab, ";"), strings.Join(coqOps, ";"), strings.Join(coqOuts, ";"))
+		cases.Add(term, map[string]any{"kind": "set", "size": size, "ops": ops})
+	}
+}
+
+func replayOne(rp replay) {
+	switch rp.Kind {
+	case "roundtrip":
+		h := hint.NewHint(hint.Type(rp.Type), util.EnsureParseVersion(rp.Version))
+		p, err := hint.ParseHint(h.String())
+		fmt.Printf("replay: type %q valid=%v; hint prints %q (valid=%v); parses to (%q, %s) err=%v valid=%v\n", rp.Type, hint.Type(rp.Type).IsValid(nil) == nil, h.String(), h.IsValid(nil) == nil, p.Type(), p.Version(), err, p.IsValid(nil) == nil)
+	case "compare":
+		a, b := util.EnsureParseVersion(rp.A), util.EnsureParseVersion(rp.B)
+		fmt.Printf("replay: Compare(%s,%s) = %d; Compare(%s,%s) = %d; semver precedence %d\n", a, b, a.Compare(b), b, a, b.Compare(a), refCompare(a, b))
+	case "set":
+		res := vh.NewResult("replay")
+		runSet(res, &vh.Cases{}, rp.Size, rp.Ops, false)
+		for _, f := range res.Failures {
+			fmt.Printf("replay: %s: %s\n", f.Class, f.Desc)
+		}
+		if len(res.Failures) == 0 {
+			fmt.Println("replay: history passes the oracle")
+		}
+	}
 }
